@@ -5,6 +5,11 @@
 //  mode `routes` : stdin scenes  "S pen ns nc" / ns x "x0 y0 x1 y1" / nc x "sx sy dx dy sdirs ddirs" / "E";
 //                  orthogonal routing, nudging off (idealNudgingDistance 0) so that route() is the raw search result;
 //                  prints per connector "R n x0 y0 ..." (%.17g) and "E" per scene.
+//  mode `seq`    : SEVERAL ROUTINGS WITH DIFFERENT PARAMETERS IN ONE PROCESS (per-process state: function-local statics, caches).  stdin steps
+//                  "S pen keep ns nc" / boxes / conns   new Router (the previous one is deleted first unless keep = 1: then it stays alive to the end)
+//                  "T pen mode [k x0 y0 x1 y1]"         on the CURRENT router: setRoutingParameter(segmentPenalty, pen), then mode 0 nothing more,
+//                                                       1 makePathInvalid() on every connector, 2 moveShape(shape k, new rectangle); processTransaction()
+//                  after every step the routes of the current router's connectors ("R n .." / "X") and "E" are printed.
 #include <cstdio>
 #include <cstdlib>
 #include <cstring>
@@ -74,8 +79,79 @@ static int routes_mode()
     return 0;
 }
 
+static void print_routes(Router *router, std::vector<ConnRef*> &conns)
+{
+    try {
+        router->processTransaction();
+        for (size_t i = 0; i < conns.size(); i++) {
+            const PolyLine &r = conns[i]->route();
+            printf("R %zu", r.size());
+            for (size_t j = 0; j < r.size(); j++) printf(" %.17g %.17g", r.ps[j].x, r.ps[j].y);
+            printf("\n");
+        }
+    } catch (...) {
+        for (size_t i = 0; i < conns.size(); i++) printf("X\n");
+    }
+    printf("E\n");
+}
+
+static Polygon rect_poly(double x0, double y0, double x1, double y1)
+{
+    Polygon p(4);
+    p.ps[0] = Point(x1, y0); p.ps[1] = Point(x1, y1); p.ps[2] = Point(x0, y1); p.ps[3] = Point(x0, y0);
+    return p;
+}
+
+static int seq_mode()
+{
+    char tag;
+    Router *router = nullptr;
+    std::vector<Router*> kept;
+    std::vector<ShapeRef*> shapes;
+    std::vector<ConnRef*> conns;
+    while (std::cin >> tag) {
+        if (tag == 'S') {
+            int keep, ns, nc; double pen;
+            std::cin >> pen >> keep >> ns >> nc;
+            if (router) { if (keep) kept.push_back(router); else delete router; }
+            shapes.clear(); conns.clear();
+            router = new Router(OrthogonalRouting);
+            router->setRoutingParameter(segmentPenalty, pen);
+            router->setRoutingParameter(idealNudgingDistance, 0);
+            router->setRoutingOption(nudgeOrthogonalSegmentsConnectedToShapes, false);
+            for (int i = 0; i < ns; i++) {
+                double x0, y0, x1, y1; std::cin >> x0 >> y0 >> x1 >> y1;
+                Polygon p = rect_poly(x0, y0, x1, y1);
+                shapes.push_back(new ShapeRef(router, p, i + 1));
+            }
+            for (int i = 0; i < nc; i++) {
+                double sx, sy, dx, dy; unsigned sdir, ddir; std::cin >> sx >> sy >> dx >> dy >> sdir >> ddir;
+                conns.push_back(new ConnRef(router, ConnEnd(Point(sx, sy), (ConnDirFlags) sdir),
+                                            ConnEnd(Point(dx, dy), (ConnDirFlags) ddir), 100 + i));
+            }
+            print_routes(router, conns);
+        } else if (tag == 'T') {
+            double pen; int mode;
+            std::cin >> pen >> mode;
+            int k = 0; double x0 = 0, y0 = 0, x1 = 0, y1 = 0;
+            if (mode == 2) std::cin >> k >> x0 >> y0 >> x1 >> y1;
+            if (!router) { printf("E\n"); continue; }
+            try {
+                router->setRoutingParameter(segmentPenalty, pen);
+                if (mode == 1) for (size_t i = 0; i < conns.size(); i++) conns[i]->makePathInvalid();
+                if (mode == 2 && k >= 0 && k < (int) shapes.size()) router->moveShape(shapes[k], rect_poly(x0, y0, x1, y1));
+            } catch (...) { }
+            print_routes(router, conns);
+        } else break;
+    }
+    delete router;
+    for (size_t i = 0; i < kept.size(); i++) delete kept[i];
+    return 0;
+}
+
 int main(int argc, char **argv)
 {
+    if (argc > 1 && !strcmp(argv[1], "seq")) return seq_mode();
     if (argc > 1 && !strcmp(argv[1], "bends")) return bends_mode(argc > 2 ? atoi(argv[2]) : 2);
     return routes_mode();
 }
